@@ -63,4 +63,36 @@ def replay_strategy(inp):
                 bad.append({"sources_succeed": list(pattern), "why": why})
                 if len(bad) > 3:
                     return {"violates": True, "detail": bad}
-    return {"violates": bool(bad), "detail": bad}
+    # the same source OBJECT produced more than once (a retry): every production is an attempt of its own
+    class Retry(AuthSource):
+        def __init__(self, outcomes, log):
+            super().__init__(username="u")
+            self.outcomes, self.log = list(outcomes), log
+
+        def authenticate(self, transport):
+            self.log.append(len(self.log))
+            if self.outcomes.pop(0):
+                return "ok"
+            raise RuntimeError("no")
+
+    class Twice(AuthStrategy):
+        def __init__(self, src, n):
+            super().__init__(ssh_config=None)
+            self.src, self.n = src, n
+
+        def get_sources(self):
+            for _ in range(self.n):
+                yield self.src
+    for outcomes in ([False, True], [False, False, True], [False, False]):
+        log = []
+        st = Twice(Retry(outcomes, log), len(outcomes))
+        try:
+            res = st.authenticate(transport=object())
+            n = len(list(res))
+            ok = True in outcomes and n == outcomes.index(True) + 1
+        except AuthFailure as e:
+            n = len(list(e.result))
+            ok = True not in outcomes and n == len(outcomes)
+        if not ok or len(log) != n:
+            bad.append({"one_source_object_produced": len(outcomes), "its_outcomes": outcomes, "attempts_made": len(log), "attempts_reported": n})
+    return {"violates": bool(bad), "detail": bad[:4]}
